@@ -565,7 +565,27 @@ fn credssp<T: Read + Write>(tls: &mut SslStream<T>, id: &Identity, n: &NlaCfg, r
     nla.exported_session_key = Some(v.exported_session_key.clone());
     let keys = crypto::session_keys(&v.exported_session_key);
     let mut from_client = SealCtx::new(&keys.client_sign, &keys.client_seal);
-    match from_client.unseal(&pka) {
+    // a server that announced less than full session security (no sealing, no key exchange) also understands a client that
+    // took it at its word (MS-NLMP 3.4.2-3.4.4): messages signed but not encrypted / checksums not encrypted
+    let neg_seal = n.challenge.flags & ntlm::NEG_SEAL != 0;
+    let neg_kx = n.challenge.flags & ntlm::NEG_KEY_EXCH != 0;
+    let mut as_negotiated = false;
+    let first = match from_client.clone().unseal(&pka) {
+        Some(k) => {
+            let _ = from_client.unseal(&pka);
+            Some(k)
+        }
+        None if !(neg_seal && neg_kx) => {
+            let r = from_client.unseal_mode(&pka, neg_seal, neg_kx);
+            if r.is_some() {
+                as_negotiated = true;
+                nla.notes.push(format!("the client used the session security as announced by the CHALLENGE (seal {}, key exchange {})", neg_seal, neg_kx));
+            }
+            r
+        }
+        None => None,
+    };
+    match first {
         Some(k) if k == id.spk => nla.pubkey_ok = true,
         Some(_) => {
             nla.verify_error = Some("pubKeyAuth unseals to something other than the certificate's public key".into());
@@ -580,7 +600,11 @@ fn credssp<T: Read + Write>(tls: &mut SslStream<T>, id: &Identity, n: &NlaCfg, r
     let mut to_client = SealCtx::new(&keys.server_sign, &keys.server_seal);
     let honest_token = to_client.clone().seal(&ntlm::increment_le(&id.spk));
     let honest = ntlm::build_ts_request(n.ts_version, None, None, Some(&honest_token), LenForm::Minimal);
-    let reply = build_final(&n.final_reply, id, &keys, &to_client, &honest, &pka, n.ts_version);
+    let mut reply = build_final(&n.final_reply, id, &keys, &to_client, &honest, &pka, n.ts_version);
+    if as_negotiated && n.final_reply == FinalReply::Honest {
+        let tok = to_client.clone().seal_mode(&ntlm::increment_le(&id.spk), neg_seal, neg_kx);
+        reply = ntlm::build_ts_request(n.ts_version, None, None, Some(&tok), LenForm::Minimal);
+    }
     // classify by the reference side, not by construction
     nla.final_is_honest = match ntlm::parse_ts_request(&reply, false) {
         Ok((r, used)) if used == reply.len() => match r.pub_key_auth {
@@ -591,6 +615,9 @@ fn credssp<T: Read + Write>(tls: &mut SslStream<T>, id: &Identity, n: &NlaCfg, r
         },
         _ => false,
     };
+    if as_negotiated {
+        nla.final_is_honest = n.final_reply == FinalReply::Honest;
+    }
     nla.final_sent = reply.clone();
     nla.reached_final = true;
     if tls.write_all(&reply).is_err() {
@@ -617,7 +644,7 @@ fn credssp<T: Read + Write>(tls: &mut SslStream<T>, id: &Identity, n: &NlaCfg, r
     rep.nla.ts_requests.push(t5.clone());
     let creds = match ntlm::parse_ts_request(&t5, true) {
         Ok((r, _)) => match r.auth_info {
-            Some(ai) => match from_client.unseal(&ai) {
+            Some(ai) => match if as_negotiated { from_client.unseal_mode(&ai, neg_seal, neg_kx) } else { from_client.unseal(&ai) } {
                 Some(plain) => ntlm::parse_ts_credentials(&plain).map_err(|e| format!("TSCredentials: {}", e.0)),
                 None => Err("authInfo does not unseal under the client keys (sequence number 1)".to_string()),
             },
